@@ -112,91 +112,102 @@ def _has_param(fn, name):
 
 
 # ---------------------------------------------------------------- shapes
+def _is_loop(x):
+    return isinstance(x, ast.While)
+
+
+def _is_read(x):
+    """self.read() / self.channel.read()"""
+    return isinstance(x, ast.Call) and isinstance(x.func, ast.Attribute) and x.func.attr == "read"
+
+
+def _swap_site(fn, attr, what):
+    """the temporary assignment to <obj>.<attr> in fn and the assignments that put the saved value back.
+    -> (swap stmt, [restore stmts]); the saved value is whatever local was read from <obj>.<attr> before the swap"""
+    asg = _assigns(fn, attr)
+    if len(asg) < 2:
+        raise TranslateError(f"{what}: expected a temporary assignment to .{attr} and its restore, found {len(asg)} assignment(s)")
+    swap, restores = asg[0], asg[1:]
+    saved = {n.targets[0].id for n in ast.walk(fn)
+             if isinstance(n, ast.Assign) and len(n.targets) == 1 and isinstance(n.targets[0], ast.Name)
+             and isinstance(n.value, ast.Attribute) and n.value.attr == attr and n.lineno < swap.lineno}
+    if not saved:
+        raise TranslateError(f"{what}: the value of .{attr} is not saved before line {swap.lineno}")
+    for r in restores:
+        if not (isinstance(r.value, ast.Name) and r.value.id in saved):
+            raise TranslateError(f"{what}: line {r.lineno} assigns .{attr} something other than the saved value ({ast.unparse(r.value)})")
+    return swap, restores
+
+
+def _protected(par, swap, restore, what):
+    """restore stands in the `finally` of a try that directly follows the swap's block position, with no read / loop
+    between the swap and the try"""
+    tr = _in_finally_of(par, restore)
+    if tr is None:
+        return False
+    blk = _block_of(par, swap)
+    if tr not in blk or blk.index(tr) < blk.index(swap) or not tr.body:
+        raise TranslateError(f"{what}: the try/finally holding the restore does not follow the swap in the same block")
+    between = blk[blk.index(swap) + 1:blk.index(tr)]
+    if _contains(between, _is_loop) or _contains(between, _is_read) or _contains(between, lambda x: isinstance(x, (ast.Await, ast.Raise, ast.Return))):
+        raise TranslateError(f"{what}: code that can fail stands between the swap and the try")
+    return True
+
+
 def _shape_modifier():
-    """{'sync': bool, 'async': bool}: restore of driver_instance.timeout_ops is in the finally around the wrapped call"""
+    """{'sync': bool, 'async': bool}: restore of <driver>.timeout_ops is in the finally around the wrapped call"""
     tree = _parse(DEC)
     tm = next((n for n in tree.body if isinstance(n, ast.FunctionDef) and n.name == "timeout_modifier"), None)
     if tm is None:
         raise TranslateError(f"{DEC}: timeout_modifier not found")
-    decs = [n for n in ast.walk(tm) if isinstance(n, FUNC) and n.name == "decorate"]
+    decs = [n for n in ast.walk(tm) if isinstance(n, FUNC) and n is not tm]
     if len(decs) != 2 or sum(isinstance(d, ast.AsyncFunctionDef) for d in decs) != 1:
-        raise TranslateError(f"{DEC}: timeout_modifier: expected one sync and one async `decorate`")
+        raise TranslateError(f"{DEC}: timeout_modifier: expected one sync and one async inner function")
     res = {}
     for d in decs:
         stack = "async" if isinstance(d, ast.AsyncFunctionDef) else "sync"
+        what = f"{DEC}: timeout_modifier ({stack})"
         par = _parents(d)
-        # the guard `timeout_ops_kwarg is None or timeout_ops_kwarg == driver_instance.timeout_ops`
-        ifs = [n for n in d.body if isinstance(n, ast.If)]
-        ok_guard = False
-        for i in ifs:
-            t = i.test
-            if (isinstance(t, ast.BoolOp) and isinstance(t.op, ast.Or) and len(t.values) == 2
-                    and isinstance(t.values[0], ast.Compare) and isinstance(t.values[0].ops[0], ast.Is)
-                    and isinstance(t.values[0].comparators[0], ast.Constant) and t.values[0].comparators[0].value is None
-                    and isinstance(t.values[1], ast.Compare) and isinstance(t.values[1].ops[0], ast.Eq)
-                    and isinstance(t.values[1].comparators[0], ast.Attribute) and t.values[1].comparators[0].attr == "timeout_ops"):
-                ok_guard = True
-        if not ok_guard:
-            raise TranslateError(f"{DEC}: timeout_modifier ({stack}): guard `kwarg is None or kwarg == driver.timeout_ops` not recognised")
-        # kwargs.get("timeout_ops", None)
-        if not _contains(d.body, lambda x: isinstance(x, ast.Call) and isinstance(x.func, ast.Attribute) and x.func.attr == "get"
-                         and x.args and isinstance(x.args[0], ast.Constant) and x.args[0].value == "timeout_ops"):
-            raise TranslateError(f"{DEC}: timeout_modifier ({stack}): kwargs.get('timeout_ops') not found")
-        asg = _assigns(d, "timeout_ops", "driver_instance")
-        if len(asg) != 2:
-            raise TranslateError(f"{DEC}: timeout_modifier ({stack}): expected swap + restore of driver_instance.timeout_ops, found {len(asg)} assignments")
-        swap, restore = asg
-        if not (isinstance(restore.value, ast.Name) and restore.value.id == "base_timeout_ops"):
-            raise TranslateError(f"{DEC}: timeout_modifier ({stack}): restore does not assign base_timeout_ops")
+        swap, restores = _swap_site(d, "timeout_ops", what)
+        if len(restores) != 1:
+            raise TranslateError(f"{what}: {len(restores)} restores")
+        restore = restores[0]
         is_call = lambda x: isinstance(x, ast.Call) and isinstance(x.func, ast.Name) and x.func.id == "wrapped_func"
-        tr = _in_finally_of(par, restore)
-        blk = _block_of(par, swap)
-        if tr is not None:
-            if not (_contains(tr.body, is_call) and tr in blk and blk.index(tr) == blk.index(swap) + 1 and not tr.handlers):
-                raise TranslateError(f"{DEC}: timeout_modifier ({stack}): try/finally does not directly follow the swap / enclose the call")
+        if _protected(par, swap, restore, what):
+            if not _contains(_in_finally_of(par, restore).body, is_call):
+                raise TranslateError(f"{what}: the try does not enclose the wrapped call")
             res[stack] = True
         else:
-            # recognised non-protected form: swap; result = call; restore   in one block
+            blk = _block_of(par, swap)
+            # recognised unprotected form: swap; result = call; restore   in one block
             if restore in blk and blk.index(restore) > blk.index(swap) and _contains(blk[blk.index(swap) + 1:blk.index(restore)], is_call):
                 res[stack] = False
             else:
-                raise TranslateError(f"{DEC}: timeout_modifier ({stack}): restore of timeout_ops has an unrecognised form")
+                raise TranslateError(f"{what}: restore of timeout_ops has an unrecognised form")
     return res
 
 
 def _shape_channel(stack):
     rel, cname = CHAN[stack]
     fn = _method(_cls(rel, cname), "_read_until_prompt_or_time", rel)
+    what = f"{rel}: _read_until_prompt_or_time"
     par = _parents(fn)
-    asg = _assigns(fn, "timeout_transport", "_transport_args")
-    if len(asg) != 2:
-        raise TranslateError(f"{rel}: _read_until_prompt_or_time: expected swap + restore of _transport_args.timeout_transport, found {len(asg)}")
-    swap, restore = asg
+    swap, restores = _swap_site(fn, "timeout_transport", what)
+    if len(restores) != 1:
+        raise TranslateError(f"{what}: {len(restores)} restores")
+    restore = restores[0]
     v = swap.value
     if not (isinstance(v, ast.Call) and isinstance(v.func, ast.Name) and v.func.id == "int" and len(v.args) == 1
             and isinstance(v.args[0], ast.Name) and v.args[0].id == "read_duration"):
-        raise TranslateError(f"{rel}: _read_until_prompt_or_time: swap value is not int(read_duration)")
-    if not (isinstance(restore.value, ast.Name) and restore.value.id == "previous_timeout_transport"):
-        raise TranslateError(f"{rel}: _read_until_prompt_or_time: restore does not assign previous_timeout_transport")
-    if swap not in fn.body:
-        raise TranslateError(f"{rel}: _read_until_prompt_or_time: swap is not a top-level statement")
-    is_loop = lambda x: isinstance(x, ast.While)
-    reads_outside = lambda stmts: _contains(stmts, lambda x: isinstance(x, ast.Call) and isinstance(x.func, ast.Attribute) and x.func.attr == "read"
-                                            and isinstance(x.func.value, ast.Name) and x.func.value.id == "self")
-    tr = _in_finally_of(par, restore)
-    after_swap = fn.body[fn.body.index(swap) + 1:]
-    if tr is not None:
-        if tr not in after_swap or not _contains(tr.body, is_loop) or tr.handlers:
-            raise TranslateError(f"{rel}: _read_until_prompt_or_time: finally does not enclose the read loop")
-        between = after_swap[:after_swap.index(tr)]
-        if reads_outside(between) or _contains(between, is_loop):
-            raise TranslateError(f"{rel}: _read_until_prompt_or_time: reads between the swap and the try")
+        raise TranslateError(f"{what}: swap value is not int(read_duration)")
+    if _protected(par, swap, restore, what):
         fin = True
     else:
-        if restore in after_swap and _contains(after_swap[:after_swap.index(restore)], is_loop):
+        blk = _block_of(par, swap)
+        if restore in blk and blk.index(restore) > blk.index(swap) and _contains(blk[blk.index(swap) + 1:blk.index(restore)], _is_loop):
             fin = False
         else:
-            raise TranslateError(f"{rel}: _read_until_prompt_or_time: restore has an unrecognised form")
+            raise TranslateError(f"{what}: restore has an unrecognised form")
     # default duration
     dflt = None
     for n in ast.walk(fn):
@@ -205,58 +216,34 @@ def _shape_channel(stack):
                 and len(n.body) == 1 and isinstance(n.body[0], ast.Assign)):
             dflt = ast.literal_eval(n.body[0].value)
     if dflt is None:
-        raise TranslateError(f"{rel}: _read_until_prompt_or_time: `if read_duration is None: read_duration = <literal>` not found")
-    # the suppress(ScrapliTimeout) around the read
-    sup = [n for n in ast.walk(fn) if isinstance(n, (ast.With, ast.AsyncWith)) and any(
-        isinstance(i.context_expr, ast.Call) and getattr(i.context_expr.func, "id", "") == "suppress"
-        and [getattr(a, "id", None) for a in i.context_expr.args] == ["ScrapliTimeout"] for i in n.items)]
-    if len(sup) != 1 or not reads_outside(sup[0].body):
-        raise TranslateError(f"{rel}: _read_until_prompt_or_time: `with suppress(ScrapliTimeout): self.read()` not found")
+        raise TranslateError(f"{what}: `if read_duration is None: read_duration = <literal>` not found")
     return fin, _milli(dflt, f"{rel} default read_duration")
 
 
 def _shape_read_callback(stack):
     rel, cname = GEN[stack]
     fn = _method(_cls(rel, cname), "read_callback", rel)
+    what = f"{rel}: read_callback"
     par = _parents(fn)
-    asg = _assigns(fn, "timeout_transport", "self")
-    if not asg:
-        raise TranslateError(f"{rel}: read_callback: no assignment to self.timeout_transport")
-    swap, restores = asg[0], asg[1:]
+    swap, restores = _swap_site(fn, "timeout_transport", what)
     v = swap.value
     if not (isinstance(v, ast.IfExp) and isinstance(v.test, ast.Compare) and isinstance(v.test.left, ast.Name) and v.test.left.id == "read_timeout"
             and isinstance(v.test.ops[0], ast.GtE) and isinstance(v.test.comparators[0], ast.Constant)
             and isinstance(v.body, ast.Name) and v.body.id == "read_timeout"
             and isinstance(v.orelse, ast.Attribute) and v.orelse.attr == "timeout_transport"):
-        raise TranslateError(f"{rel}: read_callback: swap is not `read_timeout if read_timeout >= <c> else self.timeout_transport`")
+        raise TranslateError(f"{what}: swap is not `read_timeout if read_timeout >= <c> else self.timeout_transport`")
     thr = _milli(v.test.comparators[0].value, f"{rel} read_timeout threshold")
-    for r in restores:
-        if not (isinstance(r.value, ast.Name) and r.value.id == "original_transport_timeout"):
-            raise TranslateError(f"{rel}: read_callback: line {r.lineno} assigns self.timeout_transport something other than original_transport_timeout")
-    if swap not in fn.body:
-        raise TranslateError(f"{rel}: read_callback: swap is not a top-level statement")
-    is_loop = lambda x: isinstance(x, ast.While)
-    is_chan_read = lambda x: isinstance(x, ast.Call) and isinstance(x.func, ast.Attribute) and x.func.attr == "read" and isinstance(x.func.value, ast.Attribute) and x.func.value.attr == "channel"
-    is_run = lambda x: isinstance(x, ast.Call) and isinstance(x.func, ast.Attribute) and x.func.attr == "run"
-    after_swap = fn.body[fn.body.index(swap) + 1:]
     fin = None
-    if len(restores) == 1 and _in_finally_of(par, restores[0]) is not None:
-        tr = _in_finally_of(par, restores[0])
-        if (tr in after_swap and not tr.handlers and _contains(tr.body, is_loop) and _contains(tr.body, is_chan_read)
-                and not _contains(tr.body, is_run) and _contains(after_swap[after_swap.index(tr) + 1:], is_run)
-                and not _contains(after_swap[:after_swap.index(tr)], is_chan_read)):
-            fin = True
+    if len(restores) == 1 and _protected(par, swap, restores[0], what):
+        fin = True
     elif len(restores) == 2:
         a, b = restores
-        pa, pb = par.get(a), par.get(b)
-        in_handler = (isinstance(pa, ast.ExceptHandler) and getattr(pa.type, "id", None) == "ScrapliTimeout"
-                      and _contains(par[pa].body, is_chan_read) and any(isinstance(s, ast.Raise) for s in pa.body))
-        blk = _block_of(par, b)
-        before_run = isinstance(pb, ast.If) and _contains(blk[blk.index(b) + 1:], is_run) and not _contains(blk[:blk.index(b)], is_run)
-        if in_handler and before_run and _in_finally_of(par, a) is None and _in_finally_of(par, b) is None:
-            fin = False
+        pa = par.get(a)
+        in_handler = isinstance(pa, ast.ExceptHandler) and any(isinstance(s, ast.Raise) for s in pa.body)
+        if in_handler and _in_finally_of(par, a) is None and _in_finally_of(par, b) is None and not isinstance(par.get(b), ast.ExceptHandler):
+            fin = False            # the form before 9d6a16c: `except ScrapliTimeout: restore; raise` + restore before callback.run
     if fin is None:
-        raise TranslateError(f"{rel}: read_callback: the restores of self.timeout_transport have an unrecognised form")
+        raise TranslateError(f"{what}: the restores of self.timeout_transport have an unrecognised form")
     return fin, thr, _milli(_param_default(fn, "read_timeout", rel), f"{rel} read_timeout default")
 
 
